@@ -397,6 +397,15 @@ pub(crate) fn read_v4_components<R: Read>(
         #[allow(clippy::redundant_closure)]
         let so: Vec<OutputDescription<GrothProofBytes>> =
             Vector::read(&mut reader, |r| read_output_v4(r))?;
+        // Consensus rule: valueBalanceSapling MUST be zero when there are no Spend or Output
+        // descriptions. Accepting another value would silently drop it, so that the parsed
+        // transaction no longer re-serialises to the bytes its txid was computed from.
+        if ss.is_empty() && so.is_empty() && vb != ZatBalance::zero() {
+            return Err(io::Error::new(
+                io::ErrorKind::InvalidData,
+                "valueBalanceSapling must be zero when there are no Sapling spends or outputs",
+            ));
+        }
         Ok((vb, ss, so))
     } else {
         Ok((ZatBalance::zero(), vec![], vec![]))
